@@ -38,7 +38,7 @@ end
 theorem mkRow_in {T : List (Nat × Bool)} {pl live : Bool} {s : Stmt}
     (h : ∀ r ∈ mkRow pl live s, (r.sid, r.live) ∈ T) : InTbl T s.sid live := by
   intro i hi
-  have := h { sid := i, kind := stmtKind s, span := s.span, auxSpan := stmtAux s, cls := stmtClass s,
+  have := h { sid := i, kind := stmtKind s, span := s.span, auxSpan := stmtAux s,
               live := live, parentLive := pl } (by simp [mkRow, hi])
   simpa using this
 
@@ -123,17 +123,8 @@ def Harmless (T : List (Nat × Bool)) (cfg : Cfg) : Prop :=
 theorem plain_harmless (T : List (Nat × Bool)) : Harmless T plain := by
   constructor <;> intros <;> rfl
 
-theorem hoist_eq {cfg : Cfg} (h : ∀ f, cfg.dropFn f = false) : ∀ ss, hoist cfg ss = hoist plain ss
-  | [] => by simp [hoist]
-  | .fnDef _ _ _ (.mk _ _) (some f) _ _ :: ss => by
-      simp [hoist, h f, plain, Cfg.ofPlan]; simpa [plain, Cfg.ofPlan] using hoist_eq h ss
-  | .fnDef _ _ _ (.mk _ _) none _ _ :: ss => by simpa [hoist] using hoist_eq h ss
-  | .assign .. :: ss | .assignExisting .. :: ss | .assignIndex .. :: ss | .ifS .. :: ss | .loop .. :: ss
-  | .block .. :: ss | .ret .. :: ss | .brk .. :: ss | .cont .. :: ss | .expr .. :: ss => by
-      simpa [hoist] using hoist_eq h ss
-
 theorem hoist_ok {T : List (Nat × Bool)} : ∀ (live : Bool) (ss : List Stmt), ConsStmts T live ss →
-    ∀ fd ∈ hoist plain ss, ConsStmts T true fd.body
+    ∀ fd ∈ hoist ss, ConsStmts T true fd.body
   | _, [], _ => by simp [hoist]
   | live, s :: ss, h => by
       have ih := hoist_ok (afterStmt live s) ss h.2
@@ -145,11 +136,10 @@ theorem hoist_ok {T : List (Nat × Bool)} : ∀ (live : Bool) (ss : List Stmt), 
         | some f =>
           have hb : ConsStmts T true b := by have := h.1; simp only [ConsStmt] at this; exact this.2
           intro fd hfd
-          simp only [hoist, plain, Cfg.ofPlan] at hfd
-          simp at hfd
-          rcases hfd with rfl | hfd
+          simp only [hoist] at hfd
+          rcases List.mem_cons.mp hfd with rfl | hfd
           · exact hb
-          · exact ih fd (by simpa [plain, Cfg.ofPlan] using hfd)
+          · exact ih fd hfd
 
 theorem findFn_ok {T : List (Nat × Bool)} {f : Nat} : ∀ {fns : List (List FnDef)} {fd : FnDef}, FnsOk T fns →
     findFn f fns = some fd → ConsStmts T true fd.body
